@@ -144,6 +144,7 @@ def build_class(mspec, events, clock=None, hw=None):
         ns['enablePoll'] = False       # a module that is never polled (its configured values are still written at start-up)
     hw = hw if hw is not None else {}
     mname = mspec['name']
+    const_errs = {}
     subns = {'__module__': 'vlib.modgen.generated', '__doc__': mspec['description']}   # split_limits: limits added by a subclass
 
     for p in mspec['params']:
@@ -180,12 +181,18 @@ def build_class(mspec, events, clock=None, hw=None):
         if p['check']:
             def chk(self, value, _n=n, _kind=p['check']):
                 events.append(('check', self.name, _n, value))
+
+                def refusal(text):
+                    # a driver may keep one error object and raise it again and again
+                    if mspec.get('const_errors'):
+                        return const_errs.setdefault((mname, _n), RangeError(text))
+                    return RangeError(text)
                 if _kind == 'reject-all':
-                    raise RangeError(f'{_n}: refused by check hook')
+                    raise refusal(f'{_n}: refused by check hook')
                 if _kind == 'reject-odd-length':
                     try:
                         if len(value) % 2:
-                            raise RangeError(f'{_n}: odd length refused by check hook')
+                            raise refusal(f'{_n}: odd length refused by check hook')
                     except TypeError:
                         pass
                 return None
